@@ -67,19 +67,33 @@ class _modules_copyable:
         return cls.__instance__
 
     def __enter__(self):
+        # All or nothing: `__exit__` does not run if this method is interrupted
+        # (e.g. by an asynchronous exception), so undo a partial entry here.
         with self.lock:
-            self.refcount += 1
-            module_reductor = copyreg.dispatch_table.get(ModuleType, MISSING)
-            if module_reductor is MISSING:
-                copyreg.dispatch_table[ModuleType] = lambda module: "passthrough"
-                self.patched_table = True
+            refcount = self.refcount
+            try:
+                self.refcount = refcount + 1
+                if copyreg.dispatch_table.get(ModuleType, MISSING) is MISSING:
+                    self.patched_table = True  # (before the entry exists, so that it is never orphaned)
+                    copyreg.dispatch_table[ModuleType] = lambda module: "passthrough"
+            except BaseException:
+                self._release_to(refcount)
+                raise
 
     def __exit__(self, *args):
         with self.lock:
-            self.refcount -= 1
-            if self.patched_table and self.refcount == 0:
-                del copyreg.dispatch_table[ModuleType]
-                self.patched_table = False
+            refcount = self.refcount - 1
+            try:
+                self._release_to(refcount)
+            except BaseException:
+                self._release_to(refcount)  # (idempotent; complete an interrupted release)
+                raise
+
+    def _release_to(self, refcount):
+        self.refcount = refcount
+        if refcount == 0 and self.patched_table:
+            copyreg.dispatch_table.pop(ModuleType, None)
+            self.patched_table = False
 
 
 _modules_copyable()  # Create the singleton at import time (i.e. before any threads can race to do so).
